@@ -9,6 +9,7 @@ use std::process::exit;
 
 mod c03;
 mod c05;
+mod c06;
 mod c07;
 mod c12;
 mod c15;
@@ -23,7 +24,7 @@ pub struct Family {
 }
 
 fn families() -> Vec<Family> {
-    vec![c20::family(), c15::family(), c07::family(), c05::family(), c12::family(), c03::family()]
+    vec![c20::family(), c15::family(), c07::family(), c05::family(), c06::family(), c12::family(), c03::family()]
 }
 
 pub fn hex(b: &[u8]) -> String {
